@@ -403,6 +403,12 @@ fn parse_val(b: &[u8], p: &mut usize) -> Result<J, String> {
 
 thread_local! {
     static LAST_PANIC: RefCell<Option<String>> = const { RefCell::new(None) };
+    /// every panic message+location observed on this thread since the last `panic_log_take`
+    static PANIC_LOG: RefCell<Vec<String>> = const { RefCell::new(Vec::new()) };
+}
+
+pub fn panic_log_take() -> Vec<String> {
+    PANIC_LOG.with(|p| std::mem::take(&mut *p.borrow_mut()))
 }
 
 /// Install a process-wide hook that stores message+location in a thread-local
@@ -420,7 +426,14 @@ pub fn install_panic_hook() {
         } else {
             "<non-string panic>".to_string()
         };
-        LAST_PANIC.with(|p| *p.borrow_mut() = Some(format!("{} @ {}", msg, loc)));
+        let full = format!("{} @ {}", msg, loc);
+        PANIC_LOG.with(|p| {
+            let mut p = p.borrow_mut();
+            if p.len() < 64 {
+                p.push(full.clone());
+            }
+        });
+        LAST_PANIC.with(|p| *p.borrow_mut() = Some(full));
     }));
 }
 
